@@ -474,6 +474,81 @@ def round_up_rule(facts, rep, files=('sonic/allocator.h',), min_sites=3):
     return n
 
 
+def clause_chunk_chain(facts, rep):
+    """'Size/Capacity account for what was handed out ... since the last Clear': Clear(), Size() and Capacity() of the
+    pool are interpreted (sv/minterp.py) over chunk chains of 1..4 chunks with distinct sizes and capacities.  After
+    Clear() the chain consists of exactly the first (user / stub) chunk, its size is 0, every other chunk was handed to
+    the base allocator's Free exactly once and is not touched afterwards; Size() / Capacity() are the sums over the
+    chain."""
+    from ..minterp import Interp, Unsupported, UndefinedBehaviour
+
+    class Chunk(dict):
+        freed = False
+
+        def __setitem__(self, k, v):
+            if self.freed:
+                raise UndefinedBehaviour('store to field %s of a chunk that was already freed' % k)
+            dict.__setitem__(self, k, v)
+
+        def __getitem__(self, k):
+            if self.freed:
+                raise UndefinedBehaviour('read of field %s of a chunk that was already freed' % k)
+            return dict.__getitem__(self, k)
+    fns = {}
+    for f in facts.functions:
+        if f.cls_qn == POOL and f.short in ('Clear', 'Size', 'Capacity') and not f.params and f.short not in fns:
+            fns[f.short] = f
+    rep.require(len(fns) == 3, 'C16: Clear / Size / Capacity of the pool found: %s' % sorted(fns))
+    if len(fns) != 3:
+        return
+
+    def chain(k):
+        cs = [Chunk(capacity=1000 + 100 * j, size=10 + j, next=0) for j in range(k)]
+        for j in range(k - 1):
+            dict.__setitem__(cs[j], 'next', cs[j + 1])
+        return cs
+    bad = None
+    runs = 0
+    try:
+        for k in range(1, 5):
+            cs = chain(k)
+            freed = []
+
+            def hook(e, args, env, members):
+                if e.get('cname') == 'Free' and len(args) == 1:
+                    if not isinstance(args[0], Chunk) or args[0].freed:
+                        raise UndefinedBehaviour('Free(%r) of something that is not a live chunk' % (args[0],))
+                    args[0].freed = True
+                    freed.append(args[0])
+                    return 0
+                return None
+            for name in ('Size', 'Capacity'):
+                mem = {'shared_': {'chunkHead': cs[0], 'refcount': 1, 'ownBuffer': 0}}
+                r = Interp(fns[name], facts, call_hook=hook).run({}, mem)[0]
+                runs += 1
+                want = sum(dict.__getitem__(c, 'size' if name == 'Size' else 'capacity') for c in cs)
+                if r != want:
+                    bad = '%s() over a chain of %d chunks = %s, the chunks sum to %s' % (name, k, r, want)
+            mem = {'shared_': {'chunkHead': cs[0], 'refcount': 1, 'ownBuffer': 0}}
+            r = Interp(fns['Clear'], facts, call_hook=hook).run({}, mem)
+            runs += 1
+            head = r[2]['shared_']['chunkHead']
+            if head is not cs[-1]:
+                bad = bad or 'Clear() on %d chunks leaves the head on chunk #%s, not on the first (user / stub) chunk' % (k, [i for i, c in enumerate(cs) if c is head])
+            elif dict.__getitem__(head, 'size') != 0 or dict.__getitem__(head, 'next') != 0:
+                bad = bad or 'Clear() on %d chunks: the surviving chunk has size %s, next %s (0 / null expected)' % (k, dict.__getitem__(head, 'size'), dict.__getitem__(head, 'next'))
+            elif len(freed) != k - 1 or any(c is cs[-1] for c in freed):
+                bad = bad or 'Clear() on %d chunks freed %d chunks (%d expected, never the first)' % (k, len(freed), k - 1)
+            if bad:
+                break
+    except UndefinedBehaviour as ex:
+        bad = 'chain of %d chunks: %s' % (k, ex)
+    except Unsupported as ex:
+        raise AnalysisBroken('C16: Clear / Size / Capacity cannot be interpreted: %s' % ex)
+    rep.fn(fns['Clear'])
+    rep.check(bad is None, 'E5.chunk-chain', fns['Clear'].qn, 'Clear / Size / Capacity over chunk chains of 1..4 chunks (%d evaluations)' % runs, fns['Clear'].loc, bad or '', facts.config)
+
+
 def run(rep, tier):
     configs = [('K1', 'SimpleChunkPolicy')] if tier == 'quick' else [('K1', 'SimpleChunkPolicy'), ('K6', 'AdaptiveChunkPolicy'), ('K5', 'SimpleChunkPolicy')]
     for cfg, pol in configs:
@@ -486,6 +561,7 @@ def run(rep, tier):
         clause_cd(facts, rep, pol_in_names)
         clause_e(facts, rep, pol_in_names)
         round_up_rule(facts, rep)
+        clause_chunk_chain(facts, rep)
     rep.trust('clang 14 front end')
     rep.assumptions += [
         'decides alignment data flow, bump-inside-chunk dominance, ChunkSize >= n, Realloc guards, zero-size early return and refcount pairing',
